@@ -324,6 +324,7 @@ def start_thread(a, ctx):
 
     if a.get('api') == '_thread':
         import _thread
+        rec['name'] = None      # such a thread has no name of its own
         _thread.start_new_thread(body, ())
     else:
         t = threading.Thread(target=body, name=a.get('name'))
@@ -342,8 +343,9 @@ def start_thread(a, ctx):
 
 def release_thread(key, wait_gone=True):
     rec = _thread_events.get(key)
-    if rec is None:
+    if rec is None or rec.get('released'):
         return
+    rec['released'] = True
     rec['ev'].set()
     gone = None
     if wait_gone:
@@ -372,7 +374,10 @@ def thread_alive_report(ctx, where):
 
 def release_all_threads():
     for key in list(_thread_events):
-        release_thread(key, wait_gone=True)
+        release_thread(key, wait_gone=False)
+    for rec in _thread_events.values():
+        if rec['thread'] is not None:
+            rec['thread'].join(5)
     _thread_events.clear()
 
 
